@@ -300,6 +300,103 @@ theorem parseZone_zoneText (off : Int) (hm : off % 60000000 = 0)
       simp
       omega
 
+/-! ### unparsable integer text -/
+theorem digitsUnderscore_chars (base : Nat) (s : Text) : ∀ (b : Bool) (acc n : Nat),
+    digitsUnderscore base s b acc = some n → ∀ c ∈ s, c = 95 ∨ ∃ d, digitVal c = some d ∧ d < base := by
+  induction s with
+  | nil => intro b acc n _ c hc; simp at hc
+  | cons x r ih =>
+    intro b acc n h c hc
+    unfold digitsUnderscore at h
+    by_cases hx : x = 95
+    · rw [if_pos hx] at h
+      rcases List.mem_cons.mp hc with e | e
+      · left; rw [e]; exact hx
+      · cases b with
+        | false => simp at h
+        | true => simp only [if_true] at h; exact ih false acc n h c e
+    · rw [if_neg hx] at h
+      cases hd : digitVal x with
+      | none => rw [hd] at h; cases h
+      | some d =>
+        rw [hd] at h
+        simp only at h
+        by_cases hlt : d < base
+        · rw [if_pos hlt] at h
+          rcases List.mem_cons.mp hc with e | e
+          · right; rw [e]; exact ⟨d, hd, hlt⟩
+          · exact ih true _ n h c e
+        · rw [if_neg hlt] at h; cases h
+
+theorem mem_tail_of_ne_head (s : Text) (c : Nat) (hc : c ∈ s) (h : s.head? ≠ some c) : c ∈ s.tail := by
+  cases s with
+  | nil => simp at hc
+  | cons x r =>
+    rcases List.mem_cons.mp hc with e | e
+    · subst e; simp at h
+    · simpa using e
+
+/-- unparsable text is an error: a character that is neither alphanumeric nor a sign nor an underscore
+anywhere inside the stripped text makes `int(text, base)` raise `ValueError`, for every base -/
+theorem pyInt_bad_char (base : Nat) (s : Text) (c : Nat) (hc : c ∈ strip s) (hv : digitVal c = none)
+    (h43 : c ≠ 43) (h45 : c ≠ 45) (h95 : c ≠ 95) : pyInt base s = .error .valueError := by
+  have h48 : c ≠ 48 := by intro e; subst e; simp [digitVal] at hv
+  have h120 : c ≠ 120 := by intro e; subst e; simp [digitVal] at hv
+  have h88 : c ≠ 88 := by intro e; subst e; simp [digitVal] at hv
+  unfold pyInt
+  simp only
+  generalize strip s = t at hc
+  -- s1
+  have hc1 : c ∈ (if t.head? = some 43 ∨ t.head? = some 45 then t.tail else t) := by
+    split
+    · rename_i hh
+      apply mem_tail_of_ne_head t c hc
+      intro e; rcases hh with hh | hh <;> (rw [e] at hh; injection hh with hh; omega)
+    · exact hc
+  generalize (if t.head? = some 43 ∨ t.head? = some 45 then t.tail else t) = s1 at hc1
+  -- s3 from s2
+  have hc2 : ∀ (s2 : Text) (q : Bool), c ∈ s2 →
+      c ∈ (if (q && decide (s2.head? = some 95)) = true then s2.tail else s2) := by
+    intro s2 q hm
+    by_cases hq : (q && decide (s2.head? = some 95)) = true
+    · rw [if_pos hq]
+      apply mem_tail_of_ne_head _ c hm
+      intro e
+      simp only [Bool.and_eq_true, decide_eq_true_eq] at hq
+      rw [e] at hq; have := hq.2; injection this with this; omega
+    · rw [if_neg hq]; exact hm
+  generalize hp : (decide (base = 16) && (decide (s1.take 2 = [48, 120]) || decide (s1.take 2 = [48, 88]))) = p
+  have hcs2 : c ∈ (if p = true then s1.drop 2 else s1) := by
+    split
+    · rename_i hpt
+      rw [← hp] at hpt
+      simp only [Bool.and_eq_true, Bool.or_eq_true, decide_eq_true_eq] at hpt
+      -- s1 = a :: b :: rest with a,b ∈ {48,120,88}
+      rcases s1 with _ | ⟨a, _ | ⟨b, rest⟩⟩
+      · simp at hc1
+      · rcases hpt.2 with e | e <;> simp at e
+      · have hab : (a = 48 ∧ (b = 120 ∨ b = 88)) := by
+          rcases hpt.2 with e | e <;> simp at e <;> omega
+        simp only [List.drop_succ_cons, List.drop_zero]
+        rcases List.mem_cons.mp hc1 with e | e
+        · omega
+        · rcases List.mem_cons.mp e with e | e
+          · omega
+          · exact e
+    · exact hc1
+  have hc3 := hc2 _ p hcs2
+  generalize (if (p && decide ((if p = true then s1.drop 2 else s1).head? = some 95)) = true
+            then (if p = true then s1.drop 2 else s1).tail else (if p = true then s1.drop 2 else s1)) = s3 at hc3
+  have hne : s3.isEmpty = false := by cases s3 <;> simp_all
+  rw [hne]
+  simp only [Bool.false_eq_true, if_false]
+  cases hd : digitsUnderscore base s3 false 0 with
+  | none => rfl
+  | some n =>
+    rcases digitsUnderscore_chars base s3 false 0 n hd c hc3 with e | ⟨d, e, _⟩
+    · exact absurd e h95
+    · rw [hv] at e; cases e
+
 /-! ### timestamp text -/
 theorem zoneText_head (off : Int) : ∃ c r, zoneText off = c :: r ∧ c ≠ 46 ∧ c ≠ 44 := by
   unfold zoneText
